@@ -16,7 +16,9 @@ build() { cmake -S "$W" -B "$W/_b" -G Ninja -DCMAKE_BUILD_TYPE=Release >/dev/nul
 demo() {
   if [ -f "$S/demo.cpp" ]; then
     g++ -std=c++14 -O1 -I"$W/include" -I"$W/src" -I/usr/include/eigen3 "$S/demo.cpp" "$W/_b/lib/libgm2calc.a" -pthread -lquadmath -o "$D/demo" 2>"$D/demo_build.log" || { echo "demo does not build"; cat "$D/demo_build.log" | head -20; return 99; }
-    (cd "$W" && timeout 600 "$D/demo" "$W/_b/bin/gm2calc.x" "$W/input/example.thdm" >"$D/demo.out" 2>&1); return $?
+    # arguments: the built gm2calc.x and an example input (seeded/<id>/demo.args names another example file when the demonstration wants one)
+    EX="$W/input/example.thdm"; [ -f "$S/demo.args" ] && EX="$W/$(cat "$S/demo.args")"
+    (cd "$W" && timeout 900 "$D/demo" "$W/_b/bin/gm2calc.x" "$EX" >"$D/demo.out" 2>&1); return $?
   elif [ -f "$S/demo.sh" ]; then
     (cd "$W" && ROOT="$W" BUILD="$W/_b" GM2CALC_BUILD_DIR="$W/_b" GM2CALC="$W/_b/bin/gm2calc.x" REPO="$W" timeout 600 bash "$S/demo.sh" "$W/_b/bin/gm2calc.x" "$W/input/example.slha" >"$D/demo.out" 2>&1); return $?
   fi
